@@ -2,7 +2,7 @@
    for single-source pipelines: the exported frame is the reference table, for all data. *)
 From Coq Require Import List String NArith ZArith Bool Lia Arith.
 From PDT Require Import Base.StableSort Model.Dtype Model.Value Model.Ops Model.Expr Model.RefSem Model.SqlCompile
-     Model.PlCompile Proofs.SortLemmas Proofs.RefLemmas Proofs.EvalLemmas Proofs.GroupLemmas Proofs.ListRel Proofs.SqlCompileLemmas
+     Model.PlCompile Proofs.SortLemmas Proofs.RefLemmas Proofs.EvalLemmas Proofs.GroupLemmas Proofs.ListRel Proofs.RefKeys Proofs.SqlCompileLemmas
      Proofs.EvalRel.
 From PDTGen Require Import Catalogue.
 Import ListNotations.
@@ -990,6 +990,266 @@ Proof.
     + intros u Hu. rewrite (Hpn u Hu). apply (pa_sel_user stl Al u Hu).
 Qed.
 
+(* ---------- inner join ---------- *)
+Definition lbounded (k : nat) (dn : dname) : Prop := match dn with User _ => True | Hidden _ c => k <= c end.
+
+Lemma uname_ren_over news consider ctr dn : uname (ren_over news consider ctr dn) = uname dn.
+Proof. destruct dn as [n|n c]; simpl; [|reflexivity]. destruct (mem_s n news && mem_d (User n) consider); reflexivity. Qed.
+Lemma uname_shift k dn : uname (shift_dn k dn) = uname dn.
+Proof. destruct dn; reflexivity. Qed.
+Lemma shift_inj k a b : shift_dn k a = shift_dn k b -> a = b.
+Proof. destruct a as [n|n c], b as [m|m c']; simpl; intros H; inversion H; subst; try reflexivity. f_equal. lia. Qed.
+Lemma shift_bounded k c dn : bounded c dn -> bounded (c + k) (shift_dn k dn).
+Proof. destruct dn; simpl; intros; [exact I|lia]. Qed.
+Lemma shift_lbounded k dn : lbounded k (shift_dn k dn).
+Proof. destruct dn; simpl; [exact I|lia]. Qed.
+Lemma ren_over_lbounded news consider ctr k dn : k <= ctr -> lbounded k dn -> lbounded k (ren_over news consider ctr dn).
+Proof.
+  intros Hk. destruct dn as [n|n c]; simpl; intros H; [|exact H].
+  destruct (mem_s n news && mem_d (User n) consider); simpl; [lia|exact I].
+Qed.
+Lemma ren_over_user_other news consider ctr n : mem_s n news = false -> ren_over news consider ctr (User n) = User n.
+Proof. intros H. simpl. rewrite H. reflexivity. Qed.
+Lemma ren_over_not_user news consider ctr dn m :
+  mem_s m news = true -> (forall k, In k consider -> True) ->
+  mem_d dn consider = true -> ren_over news consider ctr dn <> User m.
+Proof.
+  intros Hm _ Hc. destruct dn as [n|n c]; simpl; [|discriminate].
+  destruct (mem_s n news) eqn:En; simpl.
+  - rewrite Hc. discriminate.
+  - intros E. inversion E; subst. rewrite Hm in En. discriminate.
+Qed.
+
+
+Lemma nget_nokey (f : nrow) n : ~ In n (map fst f) -> nget f n = VNull.
+Proof.
+  induction f as [|[k v] f IH]; intros H; [reflexivity|]. simpl.
+  destruct (dname_eqb k n) eqn:E; [apply dname_eqb_eq in E; exfalso; apply H; left; exact E|]. apply IH. intros C. apply H. right. exact C.
+Qed.
+Lemma nget_app_nokey_l (fl fr : nrow) n : ~ In n (map fst fl) -> nget (fl ++ fr) n = nget fr n.
+Proof.
+  induction fl as [|[k v] fl IH]; intros H; [reflexivity|]. simpl.
+  destruct (dname_eqb k n) eqn:E; [apply dname_eqb_eq in E; exfalso; apply H; left; exact E|]. apply IH. intros C. apply H. right. exact C.
+Qed.
+Lemma nget_app_nokey_r (fl fr : nrow) n : ~ In n (map fst fr) -> nget (fl ++ fr) n = nget fl n.
+Proof.
+  intros H. induction fl as [|[k v] fl IH]; simpl; [apply nget_nokey; exact H|]. destruct (dname_eqb k n); [reflexivity|exact IH].
+Qed.
+
+Lemma pname_app_l (nsl nsr : names) u : In u (dom nsl) -> pname (nsl ++ nsr) u = pname nsl u.
+Proof.
+  intros H. unfold pname. destruct (assoc_u_in_dom _ _ H) as [v Hv]. rewrite (assoc_u_app_found _ _ _ _ Hv), Hv. reflexivity.
+Qed.
+Lemma pname_app_r (nsl nsr : names) u : ~ In u (dom nsl) -> pname (nsl ++ nsr) u = pname nsr u.
+Proof. intros H. unfold pname. rewrite assoc_u_app_other by exact H. reflexivity. Qed.
+
+(* shifting the suffix numbers of a frame *)
+Section Shift.
+Variable st : pstate.
+Variable k : nat.
+Hypothesis A : PAux st.
+Let st1 := shift_names k st.
+
+Lemma sh_dom : dom (p_ns st1) = dom (p_ns st).
+Proof. unfold st1, shift_names. cbn [p_ns]. apply dom_map. Qed.
+Lemma sh_pname u : In u (dom (p_ns st)) -> pname (p_ns st1) u = shift_dn k (pname (p_ns st) u).
+Proof. intros H. unfold st1, shift_names. cbn [p_ns]. apply pname_map. exact H. Qed.
+
+Lemma sh_rows (rs : list row) : Forall2 (prel (p_ns st)) rs (p_rows st) -> Forall2 (prel (p_ns st1)) rs (p_rows st1).
+Proof.
+  intros R. unfold st1 at 2. unfold shift_names. cbn [p_rows]. apply Forall2_map_r.
+  apply (Forall2_in_r _ (fun f => In f (p_rows st))) in R; [|auto].
+  eapply Forall2_impl'; [|exact R]. intros r f [Hrf Hin] u Hu. rewrite sh_dom in Hu.
+  rewrite sh_pname by exact Hu. rewrite (Hrf u Hu). symmetry.
+  apply (nget_map_keys (shift_dn k) (p_ctr st)).
+  - intros a b _ _. apply shift_inj.
+  - intros kv Hkv. apply (pa_keys_b st A). apply (pa_rows_k st A f kv Hin Hkv).
+  - apply pname_bounded; assumption.
+Qed.
+
+Lemma sh_aux : PAux st1.
+Proof.
+  unfold st1, shift_names. constructor; cbn [p_select p_part p_ns p_ctr p_keys p_rows]; rewrite ?dom_map.
+  - apply (pa_sel st A).
+  - apply (pa_part st A).
+  - intros un H. apply in_map_iff in H. destruct H as [un0 [<- H0]]. simpl. apply shift_bounded. apply (pa_ns_b st A un0 H0).
+  - intros k0 H. apply in_map_iff in H. destruct H as [k1 [<- H1]]. apply shift_bounded. apply (pa_keys_b st A k1 H1).
+  - intros f kv Hf Hkv. apply in_map_iff in Hf. destruct Hf as [f0 [<- Hf0]].
+    unfold map_keys in Hkv. apply in_map_iff in Hkv. destruct Hkv as [kv0 [<- Hkv0]]. simpl.
+    apply in_map. apply (pa_rows_k st A f0 kv0 Hf0 Hkv0).
+  - intros u H. rewrite pname_map by exact H. apply in_map. apply (pa_ns_keys st A u H).
+  - intros u H. rewrite pname_map by (apply (pa_sel st A); exact H).
+    pose proof (pa_sel_user st A u H) as U. destruct (pname (p_ns st) u); [reflexivity|discriminate U].
+Qed.
+
+Lemma sh_keys_lb k0 : In k0 (p_keys st1) -> lbounded k k0.
+Proof. unfold st1, shift_names. cbn [p_keys]. intros H. apply in_map_iff in H. destruct H as [k1 [<- _]]. apply shift_lbounded. Qed.
+End Shift.
+
+Lemma ro_aux news consider st : PAux st ->
+  (forall u, In u (p_select st) -> mem_s (uname (pname (p_ns st) u)) news = false) ->
+  PAux (rename_over news consider st).
+Proof.
+  intros A Hv. destruct (ro_aux_core st news consider A) as [H1 [H2 [H3 [H4 [H5 H6]]]]].
+  constructor; try assumption.
+  intros u Hu. assert (Hu' : In u (p_select st)) by exact Hu.
+  rewrite (ro_pname st news consider u (pa_sel st A u Hu')).
+  pose proof (user_uname _ (pa_sel_user st A u Hu')) as U. rewrite U.
+  rewrite ren_over_user_other by (apply Hv; exact Hu'). reflexivity.
+Qed.
+
+Lemma ro_keys_lb news consider st k : k <= p_ctr st ->
+  (forall x, In x (p_keys st) -> lbounded k x) -> forall x, In x (p_keys (rename_over news consider st)) -> lbounded k x.
+Proof.
+  intros Hk H x Hx. unfold rename_over in Hx. cbn [p_keys] in Hx. apply in_map_iff in Hx. destruct Hx as [x0 [<- Hx0]].
+  apply ren_over_lbounded; [exact Hk|apply H; exact Hx0].
+Qed.
+
+Lemma user_names_In m l : mem_s m (user_names l) = true <-> In (User m) l.
+Proof.
+  unfold user_names. rewrite mem_s_In, in_map_iff. split.
+  - intros [k [E Hk]]. apply filter_In in Hk. destruct Hk as [Hk U]. rewrite (user_uname _ U) in Hk. rewrite E in Hk. exact Hk.
+  - intros H. exists (User m). split; [reflexivity|apply filter_In; split; [exact H|reflexivity]].
+Qed.
+
+Lemma pjoin_case sL sR stl str0 on (UL UR : list uid) :
+  PInv sL stl -> PAux stl -> PInv sR str0 -> PAux str0 ->
+  keys_in UL (rows sL) -> keys_in UR (rows sR) ->
+  (forall x, In x (cols on) -> In x (dom (p_ns stl) ++ dom (p_ns str0))) ->
+  (forall x, In x (dom (p_ns stl)) -> ~ In x (dom (p_ns str0))) ->
+  (forall x, In x (dom (p_ns stl)) -> ~ In x UR) -> (forall x, In x (dom (p_ns str0)) -> ~ In x UL) ->
+  (forall u v, In u (p_select stl) -> In v (p_select str0) -> uname (pname (p_ns stl) u) <> uname (pname (p_ns str0) v)) ->
+  PInv (do_join sL sR on JInner) (pl_join stl str0 on) /\ PAux (pl_join stl str0 on).
+Proof.
+  intros [Rl Sl Gl] Al [Rr Sr Gr] Ar0 KL KR Son Dd DsR DsL Vis.
+  set (M := p_ctr stl + List.length (p_select str0)).
+  set (sr := shift_names M str0).
+  set (news1 := map (fun u => uname (pname (p_ns stl) u)) (p_select stl)).
+  set (sr1 := rename_over news1 (p_keys sr) sr).
+  set (news2 := map (fun u => uname (pname (p_ns sr1) u)) (p_select sr1)).
+  set (sl2 := rename_over news2 (p_keys stl) stl).
+  set (news3 := user_names (p_keys sl2)).
+  set (sr3 := rename_over news3 (p_keys sr1) sr1).
+  (* the right frame through the shift and the two passes *)
+  pose proof (sh_aux str0 M Ar0) as Asr. fold sr in Asr.
+  pose proof (sh_rows str0 M Ar0 _ Rr) as Rsr. fold sr in Rsr.
+  assert (Dsr : dom (p_ns sr) = dom (p_ns str0)) by (apply sh_dom).
+  assert (Nsr : forall v, In v (dom (p_ns str0)) -> uname (pname (p_ns sr) v) = uname (pname (p_ns str0) v)).
+  { intros v Hv. unfold sr. rewrite sh_pname by exact Hv. apply uname_shift. }
+  assert (Asr1 : PAux sr1).
+  { apply ro_aux; [exact Asr|]. intros v Hv. cbn [p_select sr shift_names] in Hv.
+    destruct (mem_s _ news1) eqn:E; [|reflexivity]. exfalso. apply mem_s_In in E. unfold news1 in E.
+    apply in_map_iff in E. destruct E as [u [E Hu]]. rewrite Nsr in E by (apply (pa_sel str0 Ar0); exact Hv).
+    apply (Vis u v Hu Hv). exact E. }
+  pose proof (ro_rows sr news1 (p_keys sr) Asr _ Rsr) as Rsr1. fold sr1 in Rsr1.
+  assert (Dsr1 : dom (p_ns sr1) = dom (p_ns str0)) by (unfold sr1; rewrite ro_dom; exact Dsr).
+  assert (Nsr1 : forall v, In v (dom (p_ns str0)) -> uname (pname (p_ns sr1) v) = uname (pname (p_ns str0) v)).
+  { intros v Hv. unfold sr1. rewrite ro_pname by (rewrite Dsr; exact Hv). rewrite uname_ren_over. apply Nsr. exact Hv. }
+  (* the left frame through pass 2 *)
+  assert (Asl2 : PAux sl2).
+  { apply ro_aux; [exact Al|]. intros u Hu.
+    destruct (mem_s _ news2) eqn:E; [|reflexivity]. exfalso. apply mem_s_In in E. unfold news2 in E.
+    apply in_map_iff in E. destruct E as [v [E Hv]]. cbn [p_select sr1 rename_over sr shift_names] in Hv.
+    rewrite Nsr1 in E by (apply (pa_sel str0 Ar0); exact Hv). apply (Vis u v Hu Hv). symmetry. exact E. }
+  pose proof (ro_rows stl news2 (p_keys stl) Al _ Rl) as Rsl2. fold sl2 in Rsl2.
+  assert (Dsl2 : dom (p_ns sl2) = dom (p_ns stl)) by (unfold sl2; apply ro_dom).
+  assert (Csl2 : p_ctr sl2 = M).
+  { unfold sl2, rename_over. cbn [p_ctr]. unfold news2, M. rewrite map_length. reflexivity. }
+  (* pass 3 *)
+  assert (Asr3 : PAux sr3).
+  { apply ro_aux; [exact Asr1|]. intros v Hv. cbn [p_select sr1 rename_over sr shift_names] in Hv.
+    destruct (mem_s _ news3) eqn:E; [|reflexivity]. exfalso. unfold news3 in E. apply user_names_In in E.
+    set (m := uname (pname (p_ns sr1) v)) in *.
+    unfold sl2, rename_over in E. cbn [p_keys] in E. apply in_map_iff in E. destruct E as [k0 [E Hk0]].
+    revert E. apply ren_over_not_user; [|auto|apply mem_d_In; exact Hk0].
+    apply mem_s_In. unfold news2. apply in_map_iff. exists v. split; [reflexivity|exact Hv]. }
+  pose proof (ro_rows sr1 news3 (p_keys sr1) Asr1 _ Rsr1) as Rsr3. fold sr3 in Rsr3.
+  assert (Dsr3 : dom (p_ns sr3) = dom (p_ns str0)) by (unfold sr3; rewrite ro_dom; exact Dsr1).
+  (* suffix numbers: left below M, right at or above M *)
+  assert (LB3 : forall x, In x (p_keys sr3) -> lbounded M x).
+  { apply ro_keys_lb.
+    - unfold sr1, rename_over, sr, shift_names. cbn [p_ctr]. lia.
+    - apply ro_keys_lb; [unfold sr, shift_names; cbn [p_ctr]; lia|]. intros x Hx. apply (sh_keys_lb str0 M x Hx). }
+  assert (KD : forall k, In k (p_keys sl2) -> In k (p_keys sr3) -> False).
+  { intros k Hl Hr. destruct k as [m|n c].
+    - unfold sr3, rename_over in Hr. cbn [p_keys] in Hr. apply in_map_iff in Hr. destruct Hr as [k1 [E Hk1]].
+      revert E. apply ren_over_not_user; [|auto|apply mem_d_In; exact Hk1].
+      unfold news3. apply user_names_In. exact Hl.
+    - pose proof (pa_keys_b sl2 Asl2 _ Hl) as B. rewrite Csl2 in B. pose proof (LB3 _ Hr) as L. simpl in B, L. lia. }
+  set (ns := p_ns sl2 ++ p_ns sr3).
+  assert (PnL : forall u, In u (dom (p_ns stl)) -> pname ns u = pname (p_ns sl2) u).
+  { intros u Hu. apply pname_app_l. rewrite Dsl2. exact Hu. }
+  assert (PnR : forall u, In u (dom (p_ns str0)) -> pname ns u = pname (p_ns sr3) u).
+  { intros u Hu. apply pname_app_r. rewrite Dsl2. intros C. apply (Dd u C Hu). }
+  (* a joined reference row and the joined frame row *)
+  assert (PJ : forall lr rr fl fr, In lr (rows sL) -> In rr (rows sR) -> In fl (p_rows sl2) -> In fr (p_rows sr3) ->
+                prel (p_ns sl2) lr fl -> prel (p_ns sr3) rr fr -> prel ns (lr ++ rr)%list (fl ++ fr)%list).
+  { intros lr rr fl fr Hlr Hrr Hfl Hfr Pl Pr u Hu. unfold ns, dom in Hu. rewrite map_app in Hu. apply in_app_or in Hu. destruct Hu as [Hu|Hu].
+    - fold (dom (p_ns sl2)) in Hu. assert (Hu' : In u (dom (p_ns stl))) by (rewrite <- Dsl2; exact Hu).
+      rewrite get_app_nokey_r by (intros C; apply (DsR u Hu'); apply (KR rr u Hrr C)).
+      rewrite (PnL u Hu'). rewrite (Pl u Hu).
+      symmetry. apply nget_app_nokey_r. intros C. apply (KD (pname (p_ns sl2) u)); [apply (pa_ns_keys sl2 Asl2 u Hu)|].
+      apply in_map_iff in C. destruct C as [kv [E Hkv]]. rewrite <- E. apply (pa_rows_k sr3 Asr3 fr kv Hfr Hkv).
+    - fold (dom (p_ns sr3)) in Hu. assert (Hu' : In u (dom (p_ns str0))) by (rewrite <- Dsr3; exact Hu).
+      rewrite get_app_nokey_l by (intros C; apply (DsL u Hu'); apply (KL lr u Hlr C)).
+      rewrite (PnR u Hu'). rewrite (Pr u Hu).
+      symmetry. apply nget_app_nokey_l. intros C. apply (KD (pname (p_ns sr3) u)); [|apply (pa_ns_keys sr3 Asr3 u Hu)].
+      apply in_map_iff in C. destruct C as [kv [E Hkv]]. rewrite <- E. apply (pa_rows_k sl2 Asl2 fl kv Hfl Hkv). }
+  assert (DomNs : dom ns = dom (p_ns stl) ++ dom (p_ns str0)).
+  { unfold ns, dom. rewrite map_app. fold (dom (p_ns sl2)) (dom (p_ns sr3)). rewrite Dsl2, Dsr3. reflexivity. }
+  split.
+  - constructor.
+    + cbn [rows do_join p_rows pl_join]. fold M sr news1 sr1 news2 sl2 news3 sr3 ns. rewrite app_nil_r.
+      apply (Forall2_flat_map (fun lr fl => prel (p_ns sl2) lr fl /\ In lr (rows sL) /\ In fl (p_rows sl2))).
+      * pose proof (Forall2_with_In _ _ _ Rsl2) as H1.
+        pose proof (Forall2_flip' _ _ _ (Forall2_with_In _ _ _ (Forall2_flip' _ _ _ Rsl2))) as H2.
+        pose proof (Forall2_and _ _ _ _ H1 H2) as H3. eapply Forall2_impl'; [|exact H3]. intros lr fl [[A1 A2] [_ A3]]. auto.
+      * intros lr fl [Pl [Hlr Hfl]]. unfold join_branch.
+        assert (Hin : Forall2 (fun rr fr => prel (p_ns sr3) rr fr /\ In rr (rows sR) /\ In fr (p_rows sr3)) (rows sR) (p_rows sr3)).
+        { pose proof (Forall2_with_In _ _ _ Rsr3) as H1.
+          pose proof (Forall2_flip' _ _ _ (Forall2_with_In _ _ _ (Forall2_flip' _ _ _ Rsr3))) as H2.
+          pose proof (Forall2_and _ _ _ _ H1 H2) as H3. eapply Forall2_impl'; [|exact H3]. intros rr fr [[A1 A2] [_ A3]]. auto. }
+        assert (Hf : Forall2 (fun rr fr => prel (p_ns sr3) rr fr /\ In rr (rows sR) /\ In fr (p_rows sr3))
+                             (filter (on_true on lr) (rows sR))
+                             (filter (fun fr => value_eqb (eval [] (0, view ns (fl ++ fr)%list) on) (VBool true)) (p_rows sr3))).
+        { apply Forall2_filter; [exact Hin|]. intros rr fr [Pr [Hrr Hfr]]. unfold on_true. f_equal.
+          apply eval_rel; [constructor|]. split; [reflexivity|]. intros x Hx. cbn [snd].
+          assert (Hd : In x (dom ns)) by (rewrite DomNs; apply Son; exact Hx).
+          rewrite get_view by exact Hd. apply (PJ lr rr fl fr Hlr Hrr Hfl Hfr Pl Pr x Hd). }
+        assert (G2 : Forall2 (prel ns) (map (fun rr => (lr ++ rr)%list) (filter (on_true on lr) (rows sR)))
+                             (map (fun fr => (fl ++ fr)%list) (filter (fun fr => value_eqb (eval [] (0, view ns (fl ++ fr)%list) on) (VBool true)) (p_rows sr3)))).
+        { apply Forall2_map_l. apply Forall2_map_r. eapply Forall2_impl'; [|exact Hf]. intros rr fr [Pr [Hrr Hfr]].
+          apply (PJ lr rr fl fr Hlr Hrr Hfl Hfr Pl Pr). }
+        destruct (filter (on_true on lr) (rows sR)); exact G2.
+    + cbn [sel do_join p_ns p_select pl_join]. fold M sr news1 sr1 news2 sl2 news3 sr3 ns. rewrite map_app, Sl, Sr. f_equal.
+      * apply map_ext_in. intros u Hu. f_equal. pose proof (pa_sel stl Al u Hu) as Hd. rewrite (PnL u Hd).
+        unfold sl2. rewrite ro_pname by exact Hd. rewrite uname_ren_over. reflexivity.
+      * apply map_ext_in. intros v Hv. f_equal. pose proof (pa_sel str0 Ar0 v Hv) as Hd. rewrite (PnR v Hd).
+        unfold sr3. rewrite ro_pname by (rewrite Dsr1; exact Hd). rewrite uname_ren_over. symmetry. apply Nsr1. exact Hd.
+    + reflexivity.
+  - constructor; cbn [p_rows p_ns p_select p_part p_ctr p_keys pl_join]; fold M sr news1 sr1 news2 sl2 news3 sr3 ns.
+    + intros u Hu. rewrite DomNs. apply in_or_app. apply in_app_or in Hu.
+      destruct Hu as [Hu|Hu]; [left; apply (pa_sel stl Al u Hu)|right; apply (pa_sel str0 Ar0 u Hu)].
+    + intros u Hu. destruct Hu.
+    + intros un Hun. unfold ns in Hun. apply in_app_or in Hun. destruct Hun as [Hun|Hun].
+      * apply (bounded_mono (p_ctr sl2)); [|apply (pa_ns_b sl2 Asl2 un Hun)]. rewrite Csl2.
+        unfold sr3, sr1, sr. unfold rename_over, shift_names. cbn [p_ctr]. lia.
+      * apply (pa_ns_b sr3 Asr3 un Hun).
+    + intros k Hk. apply in_app_or in Hk. destruct Hk as [Hk|Hk].
+      * apply (bounded_mono (p_ctr sl2)); [|apply (pa_keys_b sl2 Asl2 k Hk)]. rewrite Csl2.
+        unfold sr3, sr1, sr. unfold rename_over, shift_names. cbn [p_ctr]. lia.
+      * apply (pa_keys_b sr3 Asr3 k Hk).
+    + intros f kv Hf Hkv. apply in_flat_map in Hf. destruct Hf as [fl [Hfl Hf]]. apply in_map_iff in Hf. destruct Hf as [fr [<- Hfr]].
+      apply filter_In in Hfr. destruct Hfr as [Hfr _]. apply in_or_app. apply in_app_or in Hkv.
+      destruct Hkv as [Hkv|Hkv]; [left; apply (pa_rows_k sl2 Asl2 fl kv Hfl Hkv)|right; apply (pa_rows_k sr3 Asr3 fr kv Hfr Hkv)].
+    + intros u Hu. rewrite DomNs in Hu. apply in_or_app. apply in_app_or in Hu. destruct Hu as [Hu|Hu].
+      * left. rewrite (PnL u Hu). apply (pa_ns_keys sl2 Asl2). rewrite Dsl2. exact Hu.
+      * right. rewrite (PnR u Hu). apply (pa_ns_keys sr3 Asr3). rewrite Dsr3. exact Hu.
+    + intros u Hu. apply in_app_or in Hu. destruct Hu as [Hu|Hu].
+      * rewrite (PnL u (pa_sel stl Al u Hu)). apply (pa_sel_user sl2 Asl2 u Hu).
+      * rewrite (PnR u (pa_sel str0 Ar0 u Hu)). apply (pa_sel_user sr3 Asr3 u Hu).
+Qed.
+
 Theorem pl_compile_invariant d : forall a st,
   pl_compile d a = Some st -> pflat_ok d a = true -> PInv (sem_ref d a) st /\ PAux st.
 Proof.
@@ -1030,7 +1290,24 @@ Proof.
     destruct (IH st0 eq_refl Fa) as [I A]. cbn [sem_ref]. apply psummarize_case; assumption.
   - destruct m as [m|]; [simpl in C; discriminate C|]. simpl in C, F. cbn [sem_ref do_alias]. apply IH; assumption.
   - simpl in C. discriminate C.
-  - simpl in C. discriminate C.
+  - cbn [pl_compile] in C. cbn [pflat_ok] in F. destruct how; try discriminate C.
+    destruct (pl_compile d l) as [stl|] eqn:El; [|discriminate C]. destruct (pl_compile d r) as [str|] eqn:Er; [|discriminate C].
+    inversion C; subst; clear C.
+    apply andb_prop in F. destruct F as [F F3]. apply andb_prop in F. destruct F as [Fl Fr].
+    apply andb_prop in F3. destruct F3 as [F3 Fvis]. apply andb_prop in F3. destruct F3 as [F3 FdL].
+    apply andb_prop in F3. destruct F3 as [F3 FdR]. apply andb_prop in F3. destruct F3 as [Fon Fdd].
+    destruct (IHl stl eq_refl Fl) as [Il Al]. destruct (IHr str eq_refl Fr) as [Ir Ar].
+    cbn [sem_ref]. apply (pjoin_case _ _ stl str on (ast_uids l) (ast_uids r)); try assumption.
+    + apply (rk_rows _ _ (ref_keys d l)).
+    + apply (rk_rows _ _ (ref_keys d r)).
+    + apply forallb_mem_incl. exact Fon.
+    + apply disjointb_spec. exact Fdd.
+    + apply disjointb_spec. exact FdR.
+    + apply disjointb_spec. exact FdL.
+    + intros u v Hu Hv E. rewrite forallb_forall in Fvis. specialize (Fvis u Hu). apply negb_true_iff in Fvis.
+      assert (C : mem_s (uname (pname (p_ns stl) u)) (map (fun x => uname (pname (p_ns str) x)) (p_select str)) = true).
+      { apply mem_s_In. rewrite E. apply (in_map (fun x => uname (pname (p_ns str) x))). exact Hv. }
+      rewrite C in Fvis. discriminate Fvis.
   - cbn [pl_compile] in C. cbn [pflat_ok] in F.
     destruct (pl_compile d l) as [stl|] eqn:El; [|discriminate C]. destruct (pl_compile d r) as [str|] eqn:Er; [|discriminate C].
     inversion C; subst; clear C.
